@@ -716,6 +716,9 @@ def correspondence(ctx, tag='c10', n_quick=6000, n_thorough=60000, pred=is_c10_r
                 nontriv.add((c['url'], c['enc']))
         kinds[k] = kinds.get(k, 0) + 1
     hist.update(kinds)
+    # normalisation is a function of the string, whatever other code did with earlier (memoised) parse results
+    hviol, hn = history_check(ctx, r, cases)
+    hist['history-urls-reparsed-after-rewriter'] = hn
     hist['cases-with-oracle-answers'] = sum(1 for x in results if any(x['oracles'][k] for k in x['oracles']))
     hist['variant-spellings-checked'] = sum(len(c['variants']) for c in cases)
     ctx.url_cases = (cases, results, rejected)
@@ -733,8 +736,38 @@ def correspondence(ctx, tag='c10', n_quick=6000, n_thorough=60000, pred=is_c10_r
         'stage_seconds': timing,
         'component_cases': ncomp,
         'disagreements': dis,
-        'impl_violations': violations_from(cases, results, pred),
+        'impl_violations': violations_from(cases, results, pred) + (hviol if pred is is_c10_reason else []),
     }
+
+
+SESSION_IDS = ['sid=0123456789abcdef0123456789abcdef', 'jsessionid=0123456789ABCDEF0123456789abcdef', 'PHPSESSID=abcdefabcdefabcdefabcdefabcdefab',
+               'ASPSESSIONIDABCDEFGH=ABCDEFGHIJKLMNOPQRSTUVWX', 'cfid=12&cftoken=34']
+
+
+def history_urls(r, cases, n=240):
+    """URLs as the crawler meets them: some carry session identifiers or #! fragments (what URLRewriter acts on), most do not;
+    a share is already normalised (the fixpoint case)"""
+    out = []
+    for k in range(n // 3):
+        base = 'http://h%d.test/p%d/page.html' % (r.randrange(3), r.randrange(5))
+        sid = r.choice(SESSION_IDS)
+        out.append(r.choice([base + '?' + sid, base + '?a=1&' + sid + '&b=2', base + '?' + sid + '&z=9', base + '#!state=%d' % k,
+                             'http://h.test/(%s)/x.aspx' % ('a' * 24), base + '?q=%d' % k]))
+    pool = [c for c in cases if c['enc'] == 'utf-8' and c['tag'] not in ('soup',)]
+    for c in r.sample(pool, min(len(pool), n - len(out))):
+        out.append(un6(c['url']))
+    r.shuffle(out)
+    return out
+
+
+def history_check(ctx, r, cases):
+    urls = history_urls(r, cases)
+    res = common.run_impl('c10_impl.py', {'mode': 'history', 'urls': [h6(u) for u in urls]}, repo=ctx.repo)
+    viol = []
+    for b in res['bad'][:5]:
+        viol.append({'why': 'reparse-depends-on-history', 'case': {'url': b['url'], 'enc': 'utf-8', 'variants': [], 'history': True},
+                     'fresh': b['fresh'], 'after_history': b['after_history'], 'url_ascii': ascii(un6(b['url']))})
+    return viol, res['checked']
 
 
 def search(ctx, disagreements, tag='c10-search', pred=is_c10_reason, gen=None, script='c10_impl.py'):
@@ -752,6 +785,9 @@ def search(ctx, disagreements, tag='c10-search', pred=is_c10_reason, gen=None, s
 
 def replay(ctx, data, pred=is_c10_reason, script='c10_impl.py'):
     case = dict(data['case'])
+    if case.get('history'):
+        res = common.run_impl('c10_impl.py', {'mode': 'history', 'urls': [case['url']]}, repo=ctx.repo)
+        return bool(res['bad'])
     case.setdefault('variants', [])
     case.setdefault('enc', 'utf-8')
     res = run_impl_parse([case], script=script)[0]
